@@ -14,6 +14,7 @@ misbehaving has the appointment recorded, and no later event except abandoning t
 removes it.
 -/
 import TeosVerif.Lemmas.Plugin
+import TeosVerif.Lemmas.Tidy
 
 namespace Teos.C05
 open Teos.Client Teos.Plugin
@@ -210,11 +211,13 @@ theorem notify_records_all (s : St) (l : Loc) (h : Inv s.client) (t : TowerId) (
     split
     · rename_i s2 heq
       rw [heq] at hh kh
-      have kr := keeps_retry (s2.consumeIf (asked s1 t l) t) t (s2.pendingOf t)
-      rw [consumeIf_client] at kr
-      rcases hh with hh | hh
-      · exact Or.inl (kr.recd (kh.inv h1) t l hh)
-      · exact Or.inr (kr.flagd (kh.inv h1) t hh)
+      split
+      · exact hh
+      · have kr := keeps_retry (s2.consumeIf (asked s1 t l) t) t (s2.pendingOf t)
+        rw [consumeIf_client] at kr
+        rcases hh with hh | hh
+        · exact Or.inl (kr.recd (kh.inv h1) t l hh)
+        · exact Or.inr (kr.flagd (kh.inv h1) t hh)
     · rename_i s2 heq
       rw [heq] at hh
       rw [consumeIf_client]
@@ -346,5 +349,51 @@ example :
     (s5.client.store.rcpts 0 5).isSome = true ∧ s5.client.store.pending = [] ∧
     s5.status 0 = some .reachable := by
   decide
+
+
+/-! ### exactly one, at every stable point of every history -/
+
+theorem tidy_run : ∀ (evs : List Ev) (s : St) (due : List (TowerId × Loc)), TidyS s →
+    TidyS (runEvents s due evs).1 := by
+  intro evs
+  induction evs with
+  | nil => intro s due h; exact h
+  | cons ev rest ih => intro s due h; exact ih _ _ (step_tidy s ev h)
+
+/-- **exactly one of accepted / pending / invalid**: after any history of registrations,
+notifications (repeated ones included), changes of tower behaviour, manual retries, abandons and
+restarts, for every appointment the client owes a tower that is listed and not proven
+misbehaving, exactly one of the three records exists in the file. (At stable points: between the
+two writes of a move both exist, see below.) -/
+theorem exactly_one_at_stable_points (evs : List Ev) :
+    let r := runEvents {} [] evs
+    ∀ d ∈ r.2, ∀ sm, r.1.client.towers d.1 = some sm → sm.status ≠ .misbehaving →
+      let R := (r.1.client.store.rcpts d.1 d.2).isSome = true
+      let P := (d.1, d.2) ∈ r.1.client.store.pending
+      let I := (d.1, d.2) ∈ r.1.client.store.invalid
+      (R ∧ ¬P ∧ ¬I) ∨ (¬R ∧ P ∧ ¬I) ∨ (¬R ∧ ¬P ∧ I) := by
+  intro r d hd sm hs hm R P I
+  have ht := tidy_run evs {} [] TidyS.init
+  have hrec := (all_due_recorded evs {} [] Inv.fresh (by intro d hd; cases hd)).2 d hd
+  obtain ⟨_, _, _, _, _, _, _, _, a7, a8, a9⟩ := ht.inv.sync_some d.1 sm hs
+  obtain ⟨a, b, c, _⟩ := ht.tidy d.1 sm hs hm
+  have hP : P ↔ d.2 ∈ sm.pending := by rw [a7]; exact (mem_locsOf _ _ _).symm
+  have hI : I ↔ d.2 ∈ sm.invalid := by rw [a8]; exact (mem_locsOf _ _ _).symm
+  have hnp : ¬ ((r.1.client.store.proofs d.1).isSome = true) := fun hp => hm (a9.mpr hp)
+  have hrec' : R ∨ P ∨ I := by
+    rcases hrec with h | h
+    · exact h
+    · exact absurd h hnp
+  by_cases hR : R
+  · left
+    exact ⟨hR, fun hp => a d.2 ⟨hR, hP.mp hp⟩, fun hi => b d.2 ⟨hR, hI.mp hi⟩⟩
+  · by_cases hPP : P
+    · right; left
+      exact ⟨hR, hPP, fun hi => c d.2 ⟨hP.mp hPP, hI.mp hi⟩⟩
+    · right; right
+      rcases hrec' with h | h | h
+      · exact absurd h hR
+      · exact absurd h hPP
+      · exact ⟨hR, hPP, h⟩
 
 end Teos.C05
